@@ -151,8 +151,6 @@ Local Notation opt := (Opt.opt fl known fuel).
 (* what the flags must guarantee (OptRel.flags_ok with the exact regrouping law) *)
 Hypothesis Hfold : fold_agrees fl.
 Hypothesis Hreg : regroup_exact_ok fl.
-(* the strict optimizer: folds only to first-order constants (and closure literals to closures) *)
-Hypothesis Hstrict : f_strict fl = true.
 (* the method rule leaves closure fields alone (the repaired code) *)
 Hypothesis Hfc : f_fieldcheck fl = true.
 Hypothesis Hmap : f_map fl = true.
@@ -160,14 +158,10 @@ Hypothesis Hmap : f_map fl = true.
 Lemma is_const_spec a v : is_const a = Some v -> a = AConst v.
 Proof. destruct a; simpl; intros H; inv H; reflexivity. Qed.
 
-Lemma strict_ok_fo v : strict_ok fl v = true -> fo v = true.
-Proof. unfold strict_ok. rewrite Hstrict. auto. Qed.
-
-Lemma konst_side orig v : sidep orig -> sidep (konst fl orig v).
-Proof.
-  intros H. unfold konst. destruct (strict_ok fl v) eqn:E; auto.
-  cbn [sidep]. apply fo_cwf. apply strict_ok_fo. exact E.
-Qed.
+(* a computed constant is kept (always by the implementation's optimizer, only when first-order by
+   the strict one); it is a well-formed constant *)
+Lemma konst_side orig v : sidep orig -> cwf v -> sidep (konst fl orig v).
+Proof. intros H C. unfold konst. destruct (strict_ok fl v); auto. Qed.
 
 (* a fold: the redex t is closed and means the constant *)
 Lemma konst_arel s a t v :
@@ -177,19 +171,22 @@ Proof.
   eapply ar_step; eauto.
 Qed.
 
-Lemma seq_call cv cs v :
-  cwf cv -> Forall cwf cs -> fo v = true ->
+(* a constant closure applied to constants at Generate time *)
+Lemma gsem_call cv cs v :
+  cwf cv -> Forall cwf cs ->
   (match cv with VClo ps _ _ _ => Nat.eqb (length ps) (length (map AConst cs)) | _ => false end) = true ->
-  gapp known fuel cv cs = Ok v -> seq (ACall (AConst cv) (map AConst cs)) (AConst v).
+  gapp known fuel cv cs = Ok v ->
+  (exists k v1, (forall env, eval k env (ACall (AConst cv) (map AConst cs)) = Ok v1) /\ Sim.vrel v1 v) /\ cwf v.
 Proof.
-  intros Wc Wcs Fo Hl H n env N. destruct n as [|n]; [exfalso; apply N; reflexivity|].
-  destruct n as [|n]; [exfalso; apply N; reflexivity|].
-  rewrite (eval_S known (S n) env (ACall _ _)) in N. rewrite (eval_S known (S n) env (ACall _ _)).
-  cbn [ref_step] in *.
-  rewrite !eval_const' in N. rewrite !eval_const'. cbn [bind] in *.
-  destruct cv; try discriminate. cbv beta iota in N |- *. rewrite Nat.eqb_sym in Hl. rewrite Hl in N. rewrite Hl.
-  rewrite r_list_consts in N. rewrite r_list_consts. cbn [bind] in *.
-  rewrite (gapp_ref known fuel _ _ _ Wc Wcs H Fo (S n) N). reflexivity.
+  intros Wc Wcs Hl H. destruct (gapp_rel known fuel _ _ _ Wc Wcs H) as (v1 & E1 & R1).
+  split; [|eapply vrel_cwf_r; eauto].
+  exists (S (S fuel)), v1. split; [|exact R1]. intros env.
+  rewrite (eval_S known (S fuel) env (ACall _ _)). cbn [ref_step].
+  rewrite !eval_const'. cbn [bind].
+  destruct cv; try discriminate. cbv beta iota. rewrite Nat.eqb_sym in Hl. rewrite Hl.
+  rewrite r_list_consts. cbn [bind].
+  rewrite (r_app_le _ _ (fun env0 a => eval_mono known fuel (S fuel) env0 a (Nat.le_succ_diag_r fuel)) _ cs);
+    [exact E1|rewrite E1; discriminate].
 Qed.
 
 Lemma field_of_none rv m : closure_field rv m = false -> field_of rv m = None.
@@ -197,22 +194,23 @@ Proof.
   destruct rv; simpl; auto. destruct (assoc_v m m0) as [[]|]; auto. discriminate.
 Qed.
 
-Lemma seq_method rv m ar cs v :
-  cwf rv -> Forall cwf cs -> fo v = true ->
+(* a method (possibly with callbacks) run on constants at Generate time *)
+Lemma gsem_method rv m ar cs v :
+  cwf rv -> Forall cwf cs ->
   closure_field rv m = false -> method_arity rv m = Some ar -> arity_matches ar (length cs) = true ->
   run_method (gapp known fuel) rv m cs = Ok v ->
-  seq (AMethod (AConst rv) m (map AConst cs)) (AConst v).
+  (exists k v1, (forall env, eval k env (AMethod (AConst rv) m (map AConst cs)) = Ok v1) /\ Sim.vrel v1 v) /\ cwf v.
 Proof.
-  intros Wr Wcs Fo Hf Har Hm H n env N. destruct n as [|n]; [exfalso; apply N; reflexivity|].
-  destruct n as [|n]; [exfalso; apply N; reflexivity|].
-  rewrite (eval_S known (S n) env (AMethod _ _ _)) in N. rewrite (eval_S known (S n) env (AMethod _ _ _)).
-  cbn [ref_step] in *.
-  rewrite !eval_const' in N. rewrite !eval_const'. cbn [bind] in *.
-  rewrite (field_of_none _ _ Hf), Har in N. rewrite (field_of_none _ _ Hf), Har.
-  rewrite map_length in N. rewrite map_length.
-  rewrite arity_matches_ok in Hm. rewrite Hm in N. rewrite Hm.
-  rewrite r_list_consts in N. rewrite r_list_consts. cbn [bind] in *.
-  rewrite (method_ref known fuel _ _ _ _ Wr Wcs H Fo (S n) N). reflexivity.
+  intros Wr Wcs Hf Har Hm H. destruct (method_rel known fuel _ _ _ _ Wr Wcs H) as (v1 & E1 & R1).
+  split; [|eapply vrel_cwf_r; eauto].
+  exists (S (S fuel)), v1. split; [|exact R1]. intros env.
+  rewrite (eval_S known (S fuel) env (AMethod _ _ _)). cbn [ref_step].
+  rewrite !eval_const'. cbn [bind].
+  rewrite (field_of_none _ _ Hf), Har. rewrite map_length.
+  rewrite arity_matches_ok in Hm. rewrite Hm.
+  rewrite r_list_consts. cbn [bind].
+  rewrite (run_method_le _ _ (r_app_le _ _ (fun env0 a => eval_mono known fuel (S fuel) env0 a (Nat.le_succ_diag_r fuel))) rv m cs);
+    [exact E1|rewrite E1; discriminate].
 Qed.
 
 (* constants among optimized children are well-formed *)
@@ -356,8 +354,8 @@ Proof.
   apply all_const_spec in E. subst args'.
   destruct (gapp known fuel (VClo ps body cap self) cs) eqn:G; try (constructor; auto; fail).
   unfold konst. destruct (strict_ok fl a) eqn:So; [|constructor; auto].
-  eapply ar_step; [constructor; eauto|apply closed_call|].
-  eapply seq_call; eauto; [eapply sidep_consts; eauto|apply strict_ok_fo; auto].
+  eapply ar_gstep; [constructor; eauto|apply closed_call|].
+  eapply gsem_call; eauto. eapply sidep_consts; eauto.
 Qed.
 
 Lemma rule_method_arel s recv recv' m args args' :
@@ -377,8 +375,8 @@ Proof.
   destruct (arity_matches ar (length cs)) eqn:Am; [|constructor; auto].
   destruct (run_method (gapp known fuel) rv m cs) eqn:Rm; try (constructor; auto; fail).
   unfold konst. destruct (strict_ok fl a) eqn:So; [|constructor; auto].
-  eapply ar_step; [constructor; eauto|apply closed_method|].
-  eapply seq_method; eauto; [eapply sidep_consts; eauto|apply strict_ok_fo; auto].
+  eapply ar_gstep; [constructor; eauto|apply closed_method|].
+  eapply gsem_method; eauto. eapply sidep_consts; eauto.
 Qed.
 
 Lemma rule_closure_arel s ps b b' outer outer' r this :
@@ -401,18 +399,32 @@ Proof.
   destruct (is_const c); cbn [sidep]; auto. destruct (to_bool v) as [[|]|]; cbn [sidep]; auto.
 Qed.
 
+Lemma is_const_cwf a v : sidep a -> is_const a = Some v -> cwf v.
+Proof. intros S E. apply is_const_spec in E. subst. exact S. Qed.
+
+Lemma all_const_cwf l vs : wf_list sidep l -> all_const l = Some vs -> Forall cwf vs.
+Proof. intros S E. apply all_const_spec in E. eapply sidep_consts; eauto. Qed.
+
+Lemma all_const_map_cwf m vs :
+  wf_entries sidep m -> all_const_map m = Some vs -> Forall (fun e => cwf (snd e)) vs.
+Proof.
+  intros S E. apply all_const_map_spec in E. subst m.
+  induction vs as [|[k v] vs IH]; constructor; cbn in S; [tauto|]. apply IH. tauto.
+Qed.
+
 Lemma rule_unary_side op x : sidep x -> sidep (rule_unary fl op x).
 Proof.
-  intros. unfold rule_unary. destruct (mem_name op (f_unary fl)); cbn [sidep]; auto.
-  destruct (is_const x); cbn [sidep]; auto. destruct (ucalc op v); cbn [sidep]; auto.
-  apply konst_side; auto.
+  intros S. unfold rule_unary. destruct (mem_name op (f_unary fl)); cbn [sidep]; auto.
+  destruct (is_const x) eqn:E; cbn [sidep]; auto. destruct (ucalc op v) eqn:U; cbn [sidep]; auto.
+  apply konst_side; auto. exact (ucalc_cwf op v a (is_const_cwf _ _ S E) U).
 Qed.
 
 Lemma rule_op_side op x y : sidep x -> sidep y -> sidep (rule_op fl op x y).
 Proof.
   intros Sx Sy. unfold rule_op.
   destruct (op_flags fl op) as [[pure comm]|]; [|cbn [sidep]; auto].
-  destruct (is_const y) as [bc|]; [|cbn [sidep]; auto].
+  destruct (is_const y) as [bc|] eqn:Ey; [|cbn [sidep]; auto].
+  pose proof (is_const_cwf _ _ Sy Ey) as Cb.
   assert (So : sidep (AOp op x y)) by (cbn [sidep]; auto).
   assert (Hc : sidep
     (if comm then
@@ -437,68 +449,77 @@ Proof.
      else AOp op x y)).
   { destruct comm; auto. destruct x; auto. destruct (str_eqb op0 op); auto.
     cbn [sidep] in Sx. destruct Sx as [S1 S2].
-    destruct (is_const x1).
-    - destruct (calc op v bc); auto. destruct (strict_ok fl a) eqn:E; auto.
-      cbn [sidep]. split; auto. apply fo_cwf, strict_ok_fo; auto.
-    - destruct (is_const x2); auto. destruct (calc op v bc); auto. destruct (strict_ok fl a) eqn:E; auto.
-      cbn [sidep]. split; auto. apply fo_cwf, strict_ok_fo; auto. }
-  destruct pure; auto. destruct (is_const x); auto. destruct (calc op v bc); auto.
-  apply konst_side; auto.
+    destruct (is_const x1) eqn:E1.
+    - destruct (calc op v bc) eqn:C; auto. destruct (strict_ok fl a); auto.
+      cbn [sidep]. split; auto. exact (calc_cwf op v bc a (is_const_cwf _ _ S1 E1) Cb C).
+    - destruct (is_const x2) eqn:E2; auto. destruct (calc op v bc) eqn:C; auto. destruct (strict_ok fl a); auto.
+      cbn [sidep]. split; auto. exact (calc_cwf op v bc a (is_const_cwf _ _ S2 E2) Cb C). }
+  destruct pure; auto. destruct (is_const x) eqn:Ex; auto. destruct (calc op v bc) eqn:C; auto.
+  apply konst_side; auto. exact (calc_cwf op v bc a (is_const_cwf _ _ Sx Ex) Cb C).
 Qed.
 
 Lemma rule_list_side l : wf_list sidep l -> sidep (rule_list fl l).
 Proof.
-  intros. unfold rule_list. destruct (f_list fl); cbn [sidep]; auto.
-  destruct (all_const l); cbn [sidep]; auto. apply konst_side; auto.
+  intros S. unfold rule_list. destruct (f_list fl); cbn [sidep]; auto.
+  destruct (all_const l) eqn:E; cbn [sidep]; auto. apply konst_side; auto.
+  apply cwf_VList. eapply all_const_cwf; eauto.
 Qed.
 
 Lemma rule_index_side l i : sidep l -> sidep i -> sidep (rule_index fl l i).
 Proof.
-  intros. unfold rule_index. destruct (f_list fl); cbn [sidep]; auto.
-  destruct (is_const l); cbn [sidep]; auto. destruct (is_const i); cbn [sidep]; auto.
-  destruct (access_list v v0); cbn [sidep]; auto. apply konst_side; cbn [sidep]; auto.
+  intros Sl Si. unfold rule_index. destruct (f_list fl); cbn [sidep]; auto.
+  destruct (is_const l) eqn:El; cbn [sidep]; auto. destruct (is_const i) eqn:Ei; cbn [sidep]; auto.
+  destruct (access_list v v0) eqn:A; cbn [sidep]; auto. apply konst_side; cbn [sidep]; auto.
+  exact (access_list_cwf v v0 a (is_const_cwf _ _ Sl El) (is_const_cwf _ _ Si Ei) A).
 Qed.
 
 Lemma rule_map_side m : wf_entries sidep m -> sidep (rule_map fl m).
 Proof.
-  intros. unfold rule_map. destruct (f_map fl); cbn [sidep]; auto.
-  destruct (all_const_map m); cbn [sidep]; auto. apply konst_side; auto.
+  intros S. unfold rule_map. destruct (f_map fl); cbn [sidep]; auto.
+  destruct (all_const_map m) eqn:E; cbn [sidep]; auto. apply konst_side; auto.
+  apply cwf_VMap. eapply all_const_map_cwf; eauto.
 Qed.
 
 Lemma rule_member_side m k : sidep m -> sidep (rule_member fl m k).
 Proof.
-  intros. unfold rule_member. destruct (f_map fl); cbn [sidep]; auto.
-  destruct (is_const m); cbn [sidep]; auto. destruct (access_map v k); cbn [sidep]; auto.
-  apply konst_side; auto.
+  intros S. unfold rule_member. destruct (f_map fl); cbn [sidep]; auto.
+  destruct (is_const m) eqn:E; cbn [sidep]; auto. destruct (access_map v k) eqn:A; cbn [sidep]; auto.
+  apply konst_side; auto. exact (access_map_cwf v k a (is_const_cwf _ _ S E) A).
 Qed.
 
 Lemma rule_static_side f args : wf_list sidep args -> sidep (rule_static fl f args).
 Proof.
-  intros. unfold rule_static. destruct (static_pure fl f); cbn [sidep]; auto.
+  intros S. unfold rule_static. destruct (static_pure fl f); cbn [sidep]; auto.
   destruct (static_arity f); cbn [sidep]; auto. destruct (arity_matches a (length args)); cbn [sidep]; auto.
-  destruct (all_const args); cbn [sidep]; auto. destruct (run_static f l); cbn [sidep]; auto.
-  apply konst_side; auto.
+  destruct (all_const args) eqn:E; cbn [sidep]; auto. destruct (run_static f l) eqn:Rs; cbn [sidep]; auto.
+  apply konst_side; auto. exact (run_static_cwf f l a0 (all_const_cwf _ _ S E) Rs).
 Qed.
 
 Lemma rule_call_side fn args : sidep fn -> wf_list sidep args -> sidep (rule_call fl known fuel fn args).
 Proof.
   intros Sf Sa. assert (So : sidep (ACall fn args)) by (cbn [sidep]; auto).
-  unfold rule_call. destruct (is_const fn); auto. destruct (f_closure fl); auto.
+  unfold rule_call. destruct (is_const fn) eqn:Ef; auto. destruct (f_closure fl); auto.
+  pose proof (is_const_cwf _ _ Sf Ef) as Cf.
   destruct v; auto. destruct (clo_value_pure fl _); auto.
-  destruct (Nat.eqb (length ps) (length args)); auto. destruct (all_const args); auto.
-  destruct (gapp known fuel _ l); auto. apply konst_side; auto.
+  destruct (Nat.eqb (length ps) (length args)) eqn:L; auto. destruct (all_const args) eqn:E; auto.
+  destruct (gapp known fuel _ l) eqn:G; auto. apply konst_side; auto.
+  pose proof (all_const_spec _ _ E) as Ea. subst args.
+  exact (proj2 (gsem_call _ _ _ Cf (all_const_cwf _ _ Sa E) L G)).
 Qed.
 
 Lemma rule_method_side recv m args :
   sidep recv -> wf_list sidep args -> sidep (rule_method fl known fuel recv m args).
 Proof.
   intros Sr Sa. assert (So : sidep (AMethod recv m args)) by (cbn [sidep]; auto).
-  unfold rule_method. destruct (is_const recv); auto.
-  destruct (f_fieldcheck fl && f_map fl && closure_field v m); auto.
-  destruct (all_const args); auto. destruct (f_method fl); auto.
-  destruct (method_arity v m); auto. destruct (method_pure fl v m); auto.
-  destruct (arity_matches a (length l)); auto. destruct (run_method _ v m l); auto.
+  unfold rule_method. destruct (is_const recv) eqn:Er; auto.
+  pose proof (is_const_cwf _ _ Sr Er) as Cr.
+  rewrite Hfc, Hmap. cbn [andb].
+  destruct (closure_field v m) eqn:Cf; auto.
+  destruct (all_const args) eqn:E; auto. destruct (f_method fl); auto.
+  destruct (method_arity v m) eqn:Ar; auto. destruct (method_pure fl v m); auto.
+  destruct (arity_matches a (length l)) eqn:Am; auto. destruct (run_method _ v m l) eqn:Rm; auto.
   apply konst_side; auto.
+  exact (proj2 (gsem_method _ _ _ _ _ Cr (all_const_cwf _ _ Sa E) Cf Ar Am Rm)).
 Qed.
 
 Lemma rule_closure_side ps b outer r this :
@@ -510,7 +531,7 @@ Proof.
   destruct (clo_const_ok fl ps b) eqn:C; auto.
   unfold clo_const_ok in C. apply andb_true_iff in C. destruct C as [G _].
   destruct (gen_check_closed _ _ _ G Sb) as [W _].
-  cbn [sidep cwf]. auto.
+  cbn [sidep cwf cap_ok]. repeat split; auto.
 Qed.
 
 (* ---------- the traversal ---------- *)
@@ -676,9 +697,9 @@ Proof.
       try (constructor; auto); cbn [sidep]; auto.
 Qed.
 
-(* ---------- soundness of the (strict) optimizer model ---------- *)
+(* ---------- soundness of the optimizer model (strict or not) ---------- *)
 
-Theorem optimize_sound_strict : forall n m env a,
+Theorem optimize_sound_all : forall n m env a,
   side_ok a = true ->
   (forall x v, lookup x env = Some v -> vrel v v) ->
   n <= m ->
